@@ -25,7 +25,65 @@ PREFIXES = [
     # binary formats whose interesting field sits behind flag words that explode symbolically
     ('cryptoparser.tls.mysql.MySQLHandshakeSslRequest', b'\x00\x08', 3),
     ('cryptoparser.tls.mysql.MySQLHandshakeSslRequest', b'\x00\x0a\x00\x00', 4),
+    # values handed to third-party parsers (asn1crypto, idna) behind a long concrete prefix
+    ('cryptoparser.ssh.key.SshHostPublicKeyVariant',
+     b'\x00\x00\x00\x13ecdsa-sha2-nistp256\x00\x00\x00\x08nistp256\x00\x00\x00', 3),
+    ('cryptoparser.ssh.key.SshHostPublicKeyVariant', b'\x00\x00\x00\x0ex509v3-ssh-rsa\x00\x00\x00', 5),
+    ('cryptoparser.ssh.key.SshHostPublicKeyVariant', b'\x00\x00\x00\x0ex509v3-ssh-rsa\x00\x00\x00\x01\x00\x00\x00', 3),
+    ('cryptoparser.tls.extension.TlsExtensionsClient', b'\x00\x0d\x00\x00\x00\x09\x00\x07\x00\x00\x04a.', 1, b'b'),
 ]
+
+# hostile but well-formed text values: magnitudes that overflow a C long / a datetime, dates at the ends of the calendar
+HOSTILE = [
+    ('cryptoparser.httpx.header.HttpHeaderFieldValueDate', [
+        b'9999999999999999999999999', b'Fri, 31 Dec 9999 23:59:59 -0100', b'Mon, 01 Jan 0001 00:00:00 +0100',
+        b'Fri, 31 Dec 9999 23:59:59 GMT', b'Mon, 01 Jan 0001 00:00:00 GMT', b'1e400', b'99999999999999', b'0',
+        b'Thu, 01 Jan 1970 00:00:00 +9999', b'Thu, 01 Jan 1970 00:00:00 -9999']),
+    ('cryptoparser.httpx.header.HttpHeaderFieldValueExpires', [
+        b'Fri, 31 Dec 9999 23:59:59 -0100', b'Mon, 01 Jan 0001 00:00:00 +0100', b'0', b'-1']),
+    ('cryptoparser.httpx.header.HttpHeaderFieldValueLastModified', [b'Fri, 31 Dec 9999 23:59:59 -0100']),
+    ('cryptoparser.httpx.header.HttpHeaderFields', [
+        b'Expires: Fri, 31 Dec 9999 23:59:59 -0100\r\n\r\n', b'Date: Mon, 01 Jan 0001 00:00:00 +0100\r\n\r\n',
+        b'Age: 99999999999999999999999999\r\n\r\n', b'Strict-Transport-Security: max-age=' + 40 * b'9' + b'\r\n\r\n',
+        b'NEL: {"report_to":"a","max_age":1e300}\r\n\r\n',
+        b'Set-Cookie: a=b; Expires=Fri, 31 Dec 9999 23:59:59 -0100\r\n\r\n',
+        b'Set-Cookie: a=b; Max-Age=' + 40 * b'9' + b'\r\n\r\n']),
+    ('cryptoparser.httpx.header.HttpHeaderFieldValueNetworkErrorLogging', [
+        b'{"report_to":"a","max_age":1e300}', b'{"report_to":"a","max_age":-1e300}', b'{"report_to":"a","max_age":1e999}',
+        b'{"report_to":"a","max_age":NaN}', b'{"report_to":"a","max_age":' + 40 * b'9' + b'}',
+        b'{"report_to":"a","max_age":1,"success_fraction":1e999}', b'{"report_to":"a","max_age":1,"failure_fraction":"x"}',
+        b'{"report_to":"a","max_age":"1"}', b'{"report_to":1,"max_age":1}', b'{"report_to":"a","max_age":true}']),
+    ('cryptoparser.httpx.header.HttpHeaderFieldValueAge', [40 * b'9', b'-1', b'1e9']),
+    ('cryptoparser.httpx.header.HttpHeaderFieldValueSTS', [b'max-age=' + 40 * b'9', b'max-age=-1', b'max-age=1e9']),
+    ('cryptoparser.httpx.header.HttpHeaderFieldValueSetCookie', [
+        b'a=b; Max-Age=' + 40 * b'9', b'a=b; Expires=Fri, 31 Dec 9999 23:59:59 -0100', b'a=b; Expires=' + 30 * b'9']),
+    ('cryptoparser.dnsrec.txt.DnsRecordTxtValueDmarc', [
+        b'v=DMARC1; p=none; ri=' + 40 * b'9', b'v=DMARC1; p=none; pct=' + 40 * b'9', b'v=DMARC1; p=none; pct=-1']),
+    ('cryptoparser.dnsrec.txt.DnsRecordTxtValueSpf', [
+        b'v=spf1 ip4:1.2.3.4/' + 40 * b'9', b'v=spf1 a:example.com/' + 40 * b'9', b'v=spf1 ip6:::1/' + 40 * b'9']),
+]
+
+
+def hostile_values():
+    """concrete: magnitudes and calendar boundaries no window reaches from a seed; only the four parse errors escape"""
+    from symcheck.api import parse_errors  # pylint: disable=import-outside-toplevel
+    allowed = parse_errors()
+    problems = []
+    for name, values in HOSTILE:
+        cls = registry.resolve(name)
+        if cls is None:
+            continue
+        for value in values:
+            for entry in ('parse_exact_size', 'parse_immutable'):
+                try:
+                    getattr(cls, entry)(value)
+                except allowed:
+                    pass
+                except Exception as exc:  # pylint: disable=broad-except
+                    problems.append('%s.%s(%r): %s: %s' % (cls.__name__, entry, value[:60], type(exc).__name__,
+                                                           str(exc)[:80]))
+                    break
+    return problems
 
 
 def load_calibration():
@@ -38,16 +96,24 @@ def load_calibration():
 def shards(tier, seed):
     out = windows.unconstrained_shards('c02', tier, load_calibration())
     out += windows.window_shards('c02', tier, seed, per_seed=2)
-    for pidx, (name, prefix, length) in enumerate(PREFIXES):
+    for pidx, entry in enumerate(PREFIXES):
+        name, prefix, length = entry[:3]
         if registry.resolve(name) is None:
             continue
-        length += 1 if tier == 'thorough' else 0
+        par = {'MODE': 'c02', 'CLASS': name, 'L': length, 'PREFIX': prefix.hex()}
+        if len(entry) > 3:
+            par['SUFFIX'] = entry[3].hex()
+            bounds = '%r, every byte string of length %d, %r' % (prefix, length, entry[3])
+        else:
+            length += 1 if tier == 'thorough' else 0
+            par['L'] = length
+            bounds = '%r followed by every byte string of length <= %d' % (prefix, length)
         short = name.replace('cryptoparser.', '')
-        out.append(Shard(windows.MOD, 'unconstrained', 'prefix/%s/%d' % (short, pidx),
-                         {'MODE': 'c02', 'CLASS': name, 'L': length, 'PREFIX': prefix.hex()},
-                         timeout=300 if tier == 'thorough' else 60,
-                         bounds='%r followed by every byte string of length <= %d' % (prefix, length),
-                         group='prefix/%s' % short))
+        out.append(Shard(windows.MOD, 'unconstrained', 'prefix/%s/%d' % (short, pidx), par,
+                         timeout=300 if tier == 'thorough' else 60, bounds=bounds, group='prefix/%s' % short))
+    out.append(Shard(MOD, 'hostile_values', 'hostile_values', {}, kind='concrete',
+                     bounds='%d well-formed text values with overflowing magnitudes or dates at the ends of the calendar '
+                            '(natively)' % sum(len(values) for _, values in HOSTILE)))
     # the other entry points share _parse; they differ in the type of the buffer (bytearray) and the exact-size check
     extra = []
     seen = set()
